@@ -26,10 +26,30 @@ const ULIMIT_KIB: u64 = 6 * 1024 * 1024;
 // Plan: a batch is a pure function of (property, tier, profile, VERIF_SEED)
 // ---------------------------------------------------------------------------
 
+/// First bytes behind which every second byte is tried: magic numbers, comment and item
+/// starters, byte-order-mark and other multi-byte introducers.
+const TINY_FIRST: [u8; 10] = [b'P', b'#', b'v', b'f', 0xEF, 0xFF, 0xFE, 0xC3, b'\n', b' '];
+
+pub fn tiny_count() -> u64 {
+    1 + 256 + TINY_FIRST.len() as u64 * 256
+}
+
+pub fn tiny_bytes(k: u64) -> Vec<u8> {
+    match k {
+        0 => vec![],
+        1..=256 => vec![(k - 1) as u8],
+        _ => {
+            let k = k - 257;
+            vec![TINY_FIRST[(k / 256) as usize], (k % 256) as u8]
+        }
+    }
+}
+
 pub struct Plan {
     /// Number of jumbo scenarios, spread evenly over the search jobs `0..search`.
     pub jumbo: u64,
     pub search: u64,
+    pub tiny: u64,
     pub bases: Vec<SweepBase>,
     pub offsets: Vec<u64>,
     pub total: u64,
@@ -52,14 +72,16 @@ pub fn plan<P: Property>(tier: &str, profile: &str, seed: u64) -> Plan {
     let profile_salt = if profile == "checked" { 0 } else { 1 << 40 };
     let mut bases = Vec::new();
     let mut offsets = Vec::new();
-    let mut total = search;
+    // tiny files follow the search jobs (checked profile only), then the sweeps
+    let tiny = if profile == "checked" && tier != "smoke" { tiny_count() } else { 0 };
+    let mut total = search + tiny;
     for b in 0..n_bases {
         let base = P::sweep_base(mix(seed, P::STREAM + 1000, b + profile_salt));
         offsets.push(total);
         total += base.count() as u64;
         bases.push(base);
     }
-    Plan { jumbo, search, bases, offsets, total, profile_salt }
+    Plan { jumbo, search, tiny, bases, offsets, total, profile_salt }
 }
 
 impl Plan {
@@ -69,6 +91,8 @@ impl Plan {
             P::gen_jumbo(mix(seed, P::STREAM + 2000, index + self.profile_salt))
         } else if index < self.search {
             P::gen(mix(seed, P::STREAM, index + self.profile_salt))
+        } else if index < self.search + self.tiny {
+            (P::tiny_job(tiny_bytes(index - self.search)), "sweep:tiny-files", None)
         } else {
             let b = match self.offsets.binary_search(&index) {
                 Ok(i) => i,
